@@ -28,6 +28,39 @@ type c13Case struct {
 	BaseOK  bool   `json:"base_clean"` // base had no seeded errors
 }
 
+// several mutated mappings written on ONE line (flow style): every one of them is reported at its own place
+type c13Line struct {
+	YAML   string   `json:"yaml"`
+	Line   int      `json:"line"`
+	Cols   []int    `json:"cols"`    // expected syntax-check diagnostics at (Line, col)
+	AtLeast int     `json:"at_least"` // for missing keys: minimal number of syntax-check diagnostics on Line
+	What   string   `json:"what"`
+}
+
+func checkOneLine(c *c13Line) (key, msg string) {
+	got, err, pan, st := lintSafe([]byte(c.YAML))
+	if pan != nil || err != nil {
+		return "C13/panic-or-fatal", fmt.Sprintf("%v %v %s\n%s", pan, err, st, c.YAML)
+	}
+	at := map[int]int{}
+	n := 0
+	for _, d := range got {
+		if d.Kind == "syntax-check" && d.Line == c.Line {
+			at[d.Col]++
+			n++
+		}
+	}
+	for _, col := range c.Cols {
+		if at[col] == 0 {
+			return "C13/not-reported:one-line/" + c.What, fmt.Sprintf("%s: no syntax-check diagnostic at %d:%d (expected at columns %v); got %v\n%s", c.What, c.Line, col, c.Cols, diagStrings(got), c.YAML)
+		}
+	}
+	if n < c.AtLeast {
+		return "C13/not-reported:one-line/" + c.What, fmt.Sprintf("%s: %d syntax-check diagnostics on line %d, expected at least %d; got %v\n%s", c.What, n, c.Line, c.AtLeast, diagStrings(got), c.YAML)
+	}
+	return "", ""
+}
+
 var rePosInMsg = regexp.MustCompile(`line:\d+,col:\d+`)
 
 func normMsgs(ds []Diag) []string {
@@ -103,6 +136,15 @@ func checkKeyMutation(c *c13Case) (key, msg string) {
 }
 
 func init() {
+	hx.RegisterReplayer("C13/one-line", func(r *hx.Run, data json.RawMessage) {
+		var c c13Line
+		if err := json.Unmarshal(data, &c); err != nil {
+			panic(err)
+		}
+		if k, m := checkOneLine(&c); k != "" {
+			r.Report(k, m, "C13/one-line", &c)
+		}
+	})
 	hx.RegisterReplayer("C13/keys", func(r *hx.Run, data json.RawMessage) {
 		var c c13Case
 		if err := json.Unmarshal(data, &c); err != nil {
@@ -166,7 +208,7 @@ func flipCase(s string) string {
 
 func TestC13(t *testing.T) {
 	hx.Main(t, "C13", func(r *hx.Run) {
-		r.Rule = "clean workflow from the workflow-syntax model (optionally with 1-3 malformed placeholders seeded into sibling values) x EVERY fixed-key mapping x {foreign key: fresh name | key of another section | letter-case variant of an own key | near miss of an accepted key (<key>-ignore, <key>s, ...) | fresh name after a key that is broken in itself (empty or a sequence); duplicate of EVERY existing key in turn; removal of each mandatory key} and EVERY user-named mapping x {duplicate: same spelling | other letter case where names are case-insensitive}. Oracle from the model: syntax-check diagnostic exactly at the inserted key (at the item for schedule elements), at the repetition for duplicates, >=1 new syntax-check diagnostic for a removed mandatory key, and all diagnostics of the base still present. Non-trivial: every mutation; distinct = (section, mutation kind, key, base clean or seeded)."
+		r.Rule = "clean workflow from the workflow-syntax model (optionally with 1-3 malformed placeholders seeded into sibling values) x EVERY fixed-key mapping x {foreign key: fresh name | key of another section | letter-case variant of an own key | near miss of an accepted key (<key>-ignore, <key>s, ...) | fresh name after a key that is broken in itself (empty or a sequence); duplicate of EVERY existing key in turn; removal of each mandatory key} and EVERY user-named mapping x {duplicate: same spelling | other letter case where names are case-insensitive}. Oracle from the model: syntax-check diagnostic exactly at the inserted key (at the item for schedule elements), at the repetition for duplicates, >=1 new syntax-check diagnostic for a removed mandatory key, and all diagnostics of the base still present. A second family writes 2-4 sibling mappings (steps, schedule items, dispatch inputs, jobs, container with repeated keys, steps without run/uses) in flow style on ONE line and plants the same (or different) foreign key / repetition / omission in a random non-empty subset of them: every one must be reported at its own column. Non-trivial: every mutation; distinct = (section, mutation kind, key, base clean or seeded)."
 		r.Assumptions = []string{"fixed key names are case-sensitive (GitHub's syntax), so a letter-case variant is a foreign key", "case-insensitive user-named mappings asserted: jobs, inputs, secrets, outputs, with, matrix rows; env/permissions/services only for same-spelling duplicates"}
 		others := allSectionKeys()
 		secCov := map[string]int64{}
@@ -432,6 +474,149 @@ func TestC13(t *testing.T) {
 				}
 				for _, f := range restore {
 					f()
+				}
+			}
+		})
+		// the same mutation in several sibling mappings written on one line: identical messages on one line
+		r.Check(t, "one-line", hx.N(600, 20000), func(rt *rapid.T) {
+			what := rapid.SampledFrom([]string{"steps-foreign", "schedule-foreign", "container-duplicates", "steps-missing-run", "inputs-foreign", "jobs-foreign", "matrix-include-free"}).Draw(rt, "what")
+			n := rapid.IntRange(2, 4).Draw(rt, "n")
+			sameKey := rapid.IntRange(0, 3).Draw(rt, "samekey") > 0
+			keyOf := func(i int) string {
+				if sameKey {
+					return "zzz"
+				}
+				return fmt.Sprintf("zz%d", i)
+			}
+			sp := rapid.SampledFrom([]string{"", " "}).Draw(rt, "sp")
+			c := &c13Line{What: what}
+			var b strings.Builder
+			col := func() int {
+				c.Line = strings.Count(b.String(), "\n") + 1 // the last planted position is on the flow line
+				return b.Len() - strings.LastIndex(b.String(), "\n")
+			}
+			head := "on:\n  push:\n"
+			jobHead := "jobs:\n  a:\n    runs-on: ubuntu-latest\n"
+			mutated := make([]bool, n)
+			any := false
+			for i := range mutated {
+				mutated[i] = rapid.IntRange(0, 3).Draw(rt, "mut") > 0
+				any = any || mutated[i]
+			}
+			if !any {
+				mutated[n-1] = true
+			}
+			items := func(open string, item func(i int) (string, string), at string) {
+				// item returns the text before the planted key and the text from the key on
+				b.WriteString(open + "[" + sp)
+				for i := 0; i < n; i++ {
+					if i > 0 {
+						b.WriteString("," + " ")
+					}
+					pre, post := item(i)
+					start := col()
+					if mutated[i] {
+						b.WriteString(pre)
+						if at == "item" {
+							c.Cols = append(c.Cols, start)
+						} else {
+							c.Cols = append(c.Cols, col())
+						}
+						b.WriteString(post)
+					} else {
+						b.WriteString(strings.TrimSuffix(pre, ", ") + "}")
+					}
+				}
+				b.WriteString(sp + "]\n")
+			}
+			switch what {
+			case "steps-foreign":
+				b.WriteString(head + jobHead)
+				items("    steps: ", func(i int) (string, string) {
+					return fmt.Sprintf("{run: echo %d, ", i), keyOf(i) + ": 1}"
+				}, "key")
+			case "schedule-foreign":
+				b.WriteString("on:\n  push:\n")
+				items("  schedule: ", func(i int) (string, string) {
+					return fmt.Sprintf("{cron: '0 %d * * *', ", i), keyOf(i) + ": 1}"
+				}, "item")
+				b.WriteString(jobHead + "    steps:\n      - run: echo\n")
+			case "inputs-foreign":
+				b.WriteString("on:\n  workflow_dispatch:\n")
+				b.WriteString("    inputs: {" + sp)
+				for i := 0; i < n; i++ {
+					if i > 0 {
+						b.WriteString(", ")
+					}
+					b.WriteString(fmt.Sprintf("in%d: {type: string, ", i))
+					if mutated[i] {
+						c.Cols = append(c.Cols, col())
+						b.WriteString(keyOf(i) + ": 1}")
+					} else {
+						b.WriteString("required: false}")
+					}
+				}
+				b.WriteString(sp + "}\n" + jobHead + "    steps:\n      - run: echo\n")
+			case "jobs-foreign":
+				b.WriteString(head)
+				b.WriteString("jobs: {" + sp)
+				for i := 0; i < n; i++ {
+					if i > 0 {
+						b.WriteString(", ")
+					}
+					b.WriteString(fmt.Sprintf("j%d: {runs-on: ubuntu-latest, steps: [{run: echo}], ", i))
+					if mutated[i] {
+						c.Cols = append(c.Cols, col())
+						b.WriteString(keyOf(i) + ": 1}")
+					} else {
+						b.WriteString("name: x}")
+					}
+				}
+				b.WriteString(sp + "}\n")
+			case "container-duplicates":
+				b.WriteString(head + jobHead)
+				b.WriteString("    container: {" + sp + "image: 'a:0'")
+				for i := 1; i <= n; i++ {
+					b.WriteString(", ")
+					c.Cols = append(c.Cols, col())
+					b.WriteString(fmt.Sprintf("image: 'a:%d'", i))
+				}
+				b.WriteString(sp + "}\n    steps:\n      - run: echo\n")
+			case "steps-missing-run":
+				b.WriteString(head + jobHead)
+				b.WriteString("    steps: [" + sp)
+				col()
+				for i := 0; i < n; i++ {
+					if i > 0 {
+						b.WriteString(", ")
+					}
+					if mutated[i] {
+						c.AtLeast++
+						b.WriteString("{name: x}")
+					} else {
+						b.WriteString("{run: echo}")
+					}
+				}
+				b.WriteString(sp + "]\n")
+			case "matrix-include-free":
+				// negative control: user-named keys repeated in sibling mappings on one line are fine
+				b.WriteString(head + jobHead)
+				b.WriteString("    strategy:\n      matrix: {include: [{zzz: 1}, {zzz: 2}]}\n    steps:\n      - run: echo\n")
+			}
+			c.YAML = b.String()
+			r.Eval()
+			r.NT(c.YAML)
+			cls := "same-message"
+			if !sameKey {
+				cls = "different-messages"
+			}
+			r.Class(fmt.Sprintf("one-line/%s/%s/mutated=%d", what, cls, len(c.Cols)+c.AtLeast))
+			if k, m := checkOneLine(c); k != "" {
+				r.Fail(rt, k, m, "C13/one-line", c)
+			}
+			if what == "matrix-include-free" {
+				if ds, _ := lint(c.YAML); len(ds) > 0 {
+					r.Fail(rt, "C13/spurious:one-line/user-named-keys", fmt.Sprintf("clean flow-style workflow got %v\n%s", diagStrings(ds), c.YAML), "C13/one-line", c)
 				}
 			}
 		})
